@@ -17,7 +17,7 @@ pub fn prop() -> Prop {
         check,
         quick_runs: 16_000,
         both_profiles: false,
-        rule: "a run = a valid multi-aircraft stream with junk lines from the catalogue (empty, blank, text, hex of 13/15/27/29/41.. digits, bytes 0x80-0xFF, NUL, lone CR, >64 KiB, cut multi-byte sequences, truncated frames, parity-failing squitters, length/DF-mismatched frames, zero-address frames) inserted at random positions, delivered through a file or TCP connections with random read boundaries, executed twice: as is, and reduced to its accepted lines at identical processing times; stalled peers: line tails arriving 10-40 s late, also a junk line whose late tail alone is a valid frame; non-trivial = at least one junk line and one accepted line were processed; distinct = distinct scripts",
+        rule: "a run = a valid multi-aircraft stream with junk lines from the catalogue (empty, blank, text, hex of 13/15/27/29/41.. digits, bytes 0x80-0xFF, NUL, lone CR, >64 KiB, cut multi-byte sequences, truncated frames, parity-failing squitters, length/DF-mismatched frames, zero-address frames) inserted at random positions, delivered through a file or TCP connections with random read boundaries, executed twice: as is, and reduced to its accepted lines at identical processing times; stalled peers: line tails arriving 10-40 s late, also a junk line whose late tail alone is a valid frame; 0.5 % of the runs contain a flood of 65 600-70 000 junk lines; non-trivial = at least one junk line and one accepted line were processed; distinct = distinct scripts",
         level_text: "seeded differential simulation: junk-laden stream vs its accepted subsequence under identical simulated clocks; oracle: identical tables (every field, time stamps included) after every accepted group and at the end, and the reader consumed the whole stream",
     }
 }
@@ -30,9 +30,15 @@ fn junk_frame(rng: &mut Rng, acs: &mut [gen::Ac]) -> (Vec<u8>, String) {
             let k = *rng.pick(&[Kind::Df11, Kind::Ident, Kind::AirPos, Kind::Vel12]);
             let mut f = gen::frame(rng, &mut acs[a], k, true);
             let n = f.len() * 8;
-            modes::flip_bit(&mut f, rng.range(6, n as i64) as usize);
-            if rng.chance(0.5) { modes::flip_bit(&mut f, rng.range(6, n as i64) as usize); }
-            if modes::syndrome(&f) >> 7 == 0 { modes::flip_bit(&mut f, 40); }
+            if k != Kind::Df11 && rng.chance(0.15) {
+                // damage confined to the last seven parity bits
+                modes::flip_bit(&mut f, rng.range(n as i64 - 6, n as i64) as usize);
+            } else {
+                modes::flip_bit(&mut f, rng.range(6, n as i64) as usize);
+                if rng.chance(0.5) { modes::flip_bit(&mut f, rng.range(6, n as i64) as usize); }
+            }
+            // (a DF11 whose remainder has only interrogator-code bits is not junk; a DF17 damaged only there is)
+            if modes::syndrome(&f) >> 7 == 0 && (k == Kind::Df11 || modes::syndrome(&f) == 0) { modes::flip_bit(&mut f, 40); }
             (gen::line_of(rng, &f, true), "junk-parity".into())
         }
         1 => {
@@ -215,11 +221,17 @@ fn kept(line: &[u8]) -> bool {
 
 /// The stream reduced to its accepted lines, every group at the clock it had in the dirty run.
 fn clean_script(dirty: &Script, h: &History) -> (Script, Vec<usize>) {
+    reduced_script(dirty, h, &|l| kept(l))
+}
+
+/// The stream of a recorded run reduced to the lines `keep` selects, every group of lines at the clock it had
+/// in the recorded run (connections, refusals and orderly closes stay as they were).
+pub fn reduced_script(dirty: &Script, h: &History, keep: &dyn Fn(&[u8]) -> bool) -> (Script, Vec<usize>) {
     let mut conns: Vec<Conn> = dirty.conns.iter().map(|c| match c { Conn::Accept { .. } => Conn::Accept { ops: vec![] }, r => r.clone() }).collect();
     let mut prev_t = exec::T0_US;
     let mut dirty_steps = vec![];
     for (i, s) in h.steps.iter().enumerate() {
-        let acc: Vec<&Vec<u8>> = s.lines.iter().filter(|l| kept(l)).collect();
+        let acc: Vec<&Vec<u8>> = s.lines.iter().filter(|l| keep(l)).collect();
         let Conn::Accept { ops } = &mut conns[s.conn] else { continue };
         if !acc.is_empty() {
             let mut b = vec![];
